@@ -96,7 +96,7 @@ def _noise_opts(draw):
     return o
 
 
-def _draw_rxn(draw, hs, want_mode=None, want_tuple=False):
+def _draw_rxn(draw, hs, want_mode=None, want_tuple=False, no_tuple=False):
     modes = []
     if hs.mode0_ok() and (hs.plain_ok(0) or hs.tuple_ok()):
         modes.append(0)
@@ -104,7 +104,7 @@ def _draw_rxn(draw, hs, want_mode=None, want_tuple=False):
         modes.append(2)
     mode = want_mode if want_mode is not None else draw(st.sampled_from(modes))
     plain = hs.plain_ok(mode)
-    tup = hs.tuple_ok() if (mode == 0 or "deriv_mode2" in hs.allow) else []
+    tup = hs.tuple_ok() if ((mode == 0 or "deriv_mode2" in hs.allow) and not no_tuple) else []
     tl = [[i, [o[0], o[1]]] for i, o in tup]
     cands = [p for p in plain] + tl
     # derivative entries are worth over-sampling when available
@@ -299,7 +299,8 @@ def st_history(draw, gp2=False, big_ok=True, allow=(), force=None):
         ops.append(op)
         rx = []
         for _ in range(draw(st.integers(2, 4))):
-            r = _draw_rxn(draw, hs, want_mode=force.get("rxn_mode"), want_tuple=force.get("want_tuple", False))
+            r = _draw_rxn(draw, hs, want_mode=force.get("rxn_mode"), want_tuple=force.get("want_tuple", False),
+                          no_tuple=gp2)   # no model of the MOLGP2 derivative vectors
             rx.append(r)
         hs.rxns += rx
         ops.append({"op": "add", "rxns": rx})
@@ -332,6 +333,8 @@ class Run:
                               allow=case.get("allow", []))
         self.pos = {ik: p for p, ik in enumerate(self.order)}
         self.x0t_list = self.mod.ctrl_x0t(case["ctrl"]["pick"])
+        if not case["ctrl"]["reduce"]:
+            self.x0t_list = self.well_conditioned(self.x0t_list)
         with quiet():
             self.gp.set_control_points([x.copy() for x in self.x0t_list], reduce=case["ctrl"]["reduce"])
         self.ctrl = {ik: np.array(self.dk[ik].X1ctrl, dtype=float, order="C") for ik in range(self.nk)}
@@ -339,6 +342,33 @@ class Run:
         self.lastfit = None      # model quantities of the last fit
         self.lastalpha = None    # (reaction multiset key, fit args, alphas)
         self.unmodelled = False
+
+    def well_conditioned(self, x0t_list, limit=1e6):
+        """unreduced control sets are built point by point: a candidate is kept only if cond(K~ + eps) stays below
+        `limit` for every kernel (DESIGN C16: conditioning bounded by construction); the first point is always kept"""
+        kept = []
+        for X in x0t_list:
+            cols = []
+            for g in range(X.shape[2]):
+                trial = kept + ([np.ascontiguousarray(X[:, :, cols + [g]])])
+                ok = True
+                for ik in range(self.nk):
+                    kc = self.case["kernels"][ik]
+                    rows = self.mod.x1_candidates(kc, trial)
+                    if kc["mode"] == "POL":
+                        n1 = rows.shape[1] // 2
+                        C = np.stack([rows[:, :n1], rows[:, n1:]])
+                    else:
+                        C = rows
+                    K = self.mod.kmm(ik, C)
+                    if np.linalg.cond(K + G.EPS * np.eye(len(K))) > limit:
+                        ok = False
+                        break
+                if ok or (not kept and not cols):
+                    cols.append(g)
+            if cols:
+                kept.append(np.ascontiguousarray(X[:, :, cols]))
+        return kept
 
     # ---- model vectors ---------------------------------------------------------------------------
     def vec(self, ik, sid):
@@ -555,9 +585,9 @@ class Run:
                     "lam_min": float(max(ev[0], 1e-300)), "x0sq": x0sq, "Kmn": Kmn, "Kj": Kj, "n": n,
                     "normK": float(ev[-1]), "dKs": float(np.max(np.abs(s1["Kcov"] - s2["Kcov"]))),
                     # rounding-level uncertainty of the reaction covariance and of the forward quantities
-                    "dK": 30 * float(np.max(np.abs(s1["Kcov"] - s2["Kcov"]))) * n + 100 * U * n * float(ev[-1]),
-                    "dpred": 30 * float(np.max(np.abs(s1["Kcov"] @ s1["beta"] - s2["Kcov"] @ s2["beta"]))),
-                    "dalpha": {ik: 30 * float(np.max(np.abs(s1["alpha"][ik] - s2["alpha"][ik]))) for ik in range(self.nk)}})
+                    "dK": 100 * float(np.max(np.abs(s1["Kcov"] - s2["Kcov"]))) * n + 300 * U * n * float(ev[-1]),
+                    "dpred": 100 * float(np.max(np.abs(s1["Kcov"] @ s1["beta"] - s2["Kcov"] @ s2["beta"]))),
+                    "dalpha": {ik: 100 * float(np.max(np.abs(s1["alpha"][ik] - s2["alpha"][ik]))) for ik in range(self.nk)}})
         return sol
 
     def compare_fit(self, sol, tagx):
@@ -579,7 +609,8 @@ class Run:
         nb1 = float(np.sum(np.abs(beta)))
         floor = sol["dpred"] + sol["dK"] * nb1
         ctx.measure("floor_over_1e-8_pred", floor / (1e-8 * scale))
-        ctx.event("pred_floor_dominates" if floor > 1e-8 * scale else "pred_floor_below_1e-8")
+        fr = floor / (1e-8 * scale)
+        ctx.event("prediction_tolerance(relative): " + ("1e-8" if fr <= 1 else "<=1e-6" if fr <= 100 else "<=1e-4" if fr <= 1e4 else ">1e-4 (tiny noise / ill-conditioned)"))
         rawerr = float(np.max(np.abs(pred_code - pred_model)))
         ctx.measure("raw_pred_err_over_1e-8", rawerr / (1e-8 * scale))
         ctx.measure("raw_pred_err_over_floor", rawerr / (floor + 1e-300))
@@ -590,7 +621,7 @@ class Run:
         # backward error, from the observables only: beta~ = (Sigma+eps)^-1 (y - prediction), then
         # (Kmm + eps) alpha_k = x0^2 Kmn_k beta~ must hold to rounding.  beta~ inherits |dK||beta|/min(noise var).
         bt = (y - pred_code) / sol["nvar"]
-        amp = (100 * U * n * sol["normK"] * float(np.linalg.norm(bt)) + 1e-14 * scale) / float(np.min(sol["nvar"]))
+        amp = (300 * U * n * sol["normK"] * float(np.linalg.norm(bt)) + 1e-14 * scale) / float(np.min(sol["nvar"]))
         for ik in range(self.nk):
             Kj, Kmn = sol["Kj"][ik], sol["Kmn"][ik]
             lhs = Kj @ alphas[ik]
@@ -696,7 +727,7 @@ class Run:
             assert abs(ref - want) <= 1e-7 * (abs(quad) + abs(logdet) + n), "oracle self-test (scipy vs eigen formula)"
             want = ref
         bl = V @ ((V.T @ y) / lam)
-        tol_floor = (xe[0] ** 2 * f["dK"] + 100 * U * n * float(lam[-1])) * (float(bl @ bl) + n / float(lam[0]))
+        tol_floor = (xe[0] ** 2 * f["dK"] + 300 * U * n * float(lam[-1])) * (float(bl @ bl) + n / float(lam[0]))
         ctx.measure("floor_over_1e-8_lik", tol_floor / (1e-8 * (abs(quad) + abs(logdet) + n)))
         ctx.close(got, want, ("likelihood", "default_args" if x is None else "x,sigma_min"), rtol=1e-8, atol=tol_floor,
                   scale=abs(quad) + abs(logdet) + n, cond=cnd)
